@@ -370,8 +370,16 @@ struct FnEmit {
       case Intrinsic::stackrestore: case Intrinsic::prefetch:
         return true;
       case Intrinsic::stacksave: body << "  " << lhs << "0;\n"; return true;
-      case Intrinsic::memcpy: case Intrinsic::memcpy_inline: body << "  memcpy(" << A(0) << ", " << A(1) << ", " << A(2) << ");\n"; return true;
-      case Intrinsic::memmove: body << "  memmove(" << A(0) << ", " << A(1) << ", " << A(2) << ");\n"; return true;
+      case Intrinsic::memcpy: case Intrinsic::memcpy_inline: case Intrinsic::memmove: {
+        // whole-object copy of a typed aggregate: emit a typed struct assignment (keeps the checker field-sensitive)
+        Value* d0 = cb.getArgOperand(0)->stripPointerCasts(); Value* s0 = cb.getArgOperand(1)->stripPointerCasts();
+        auto* len = dyn_cast<ConstantInt>(cb.getArgOperand(2));
+        Type* dt = d0->getType()->getPointerElementType(); Type* st = s0->getType()->getPointerElementType();
+        if (len && dt == st && dt->isSized() && (dt->isStructTy() || dt->isArrayTy()) && C.DL.getTypeAllocSize(dt) == len->getZExtValue()) {
+          body << "  *" << val(d0) << " = *" << val(s0) << ";\n"; return true;
+        }
+        body << "  " << (f->getIntrinsicID() == Intrinsic::memmove ? "memmove(" : "memcpy(") << A(0) << ", " << A(1) << ", " << A(2) << ");\n"; return true;
+      }
       case Intrinsic::memset: body << "  memset(" << A(0) << ", " << A(1) << ", " << A(2) << ");\n"; return true;
       case Intrinsic::trap: body << "  vf_trap();\n"; return true;
       case Intrinsic::expect: body << "  " << lhs << A(0) << ";\n"; return true;
@@ -584,6 +592,17 @@ struct FnEmit {
       if (intrinsic(*cb, lhs)) { if (auto* inv = dyn_cast<InvokeInst>(cb)) { body << "  "; edge(I.getParent(), inv->getNormalDest(), body); body << "\n"; } return; }
       if (Function* cf = cb->getCalledFunction()) {
         StringRef fn = cf->getName();
+        if (fn == "vf_objcopy") {
+          // whole-object copy requested by the library model: typed aggregate assignment when the static type is known
+          Value* d0 = cb->getArgOperand(0)->stripPointerCasts(); Value* s0 = cb->getArgOperand(1)->stripPointerCasts();
+          auto* len = dyn_cast<ConstantInt>(cb->getArgOperand(2));
+          Type* dt = d0->getType()->getPointerElementType(); Type* st = s0->getType()->getPointerElementType();
+          if (len && dt == st && dt->isSized() && (dt->isStructTy() || dt->isArrayTy()) && C.DL.getTypeAllocSize(dt) == len->getZExtValue())
+            body << "  *" << val(d0) << " = *" << val(s0) << ";\n";
+          else { errs() << "warning: untyped vf_objcopy in " << F.getName() << "\n"; body << "  memcpy(" << val(cb->getArgOperand(0)) << ", " << val(cb->getArgOperand(1)) << ", " << val(cb->getArgOperand(2)) << ");\n"; }
+          if (auto* inv = dyn_cast<InvokeInst>(cb)) { body << "  "; edge(I.getParent(), inv->getNormalDest(), body); body << "\n"; }
+          return;
+        }
         if (fn == "vf_check" || fn == "vf_fail" || fn == "vf_bound") {
           std::string lit;
           unsigned li = fn == "vf_check" ? 1 : 0;
